@@ -645,8 +645,10 @@ def analyse(fn):
             an.block(fn["body"], env)
             evals += 1
         except Unsupported as e:
+            # this assignment of classes runs into something outside the model; others may leave the function
+            # earlier (an early return in front of a loop) and their sites are still decided
             err = str(e)
-            break
+            continue
         except RecursionError:
             err = "recursion"
             break
